@@ -559,6 +559,8 @@ func (ps *PathSim) exec(fn *ssa.Function, st *pstate, ins ssa.Instruction) {
 		default:
 			if (x.Op == token.ADD || x.Op == token.SUB) && a.K == sConst && b.K == sConst && a.C != nil && b.C != nil && a.C.Kind() == constant.Int && b.C.Kind() == constant.Int {
 				st.env[x] = &Sym{K: sConst, C: constant.BinaryOp(a.C, x.Op, b.C), T: x.Type()}
+			} else if v, ok := foldBits(st, x, a, b); ok {
+				st.env[x] = v
 			} else {
 				st.env[x] = &Sym{K: sBin, Op: x.Op, A: a, B: b, T: x.Type(), V: x}
 			}
@@ -2118,4 +2120,50 @@ func typeOfSym(s *Sym) types.Type {
 		return nil
 	}
 	return s.T.Underlying()
+}
+
+// foldBits: |, &, ^, &^, << and >> of two integers that are constants on this path (literally, or by an equality the
+// path has established: a kind assumed for a table row) — bit-set membership written with shifts and masks.
+func foldBits(st *pstate, x *ssa.BinOp, a, b *Sym) (*Sym, bool) {
+	switch x.Op {
+	case token.AND, token.OR, token.XOR, token.AND_NOT, token.SHL, token.SHR:
+	default:
+		return nil, false
+	}
+	bt, ok := x.Type().Underlying().(*types.Basic)
+	if !ok || bt.Info()&types.IsInteger == 0 {
+		return nil, false
+	}
+	cv := func(s *Sym) (constant.Value, bool) {
+		if s.K == sConst && s.C != nil && s.C.Kind() == constant.Int {
+			return s.C, true
+		}
+		if c, ok := st.eqc[s.Key()]; ok && strings.HasPrefix(c, "const(") && strings.HasSuffix(c, ")") {
+			v := constant.MakeFromLiteral(strings.TrimSuffix(strings.TrimPrefix(c, "const("), ")"), token.INT, 0)
+			if v.Kind() == constant.Int {
+				return v, true
+			}
+		}
+		return nil, false
+	}
+	ca, okA := cv(a)
+	cb, okB := cv(b)
+	if !okA || !okB {
+		return nil, false
+	}
+	var res constant.Value
+	if x.Op == token.SHL || x.Op == token.SHR {
+		n, exact := constant.Uint64Val(cb)
+		if !exact || n > 62 {
+			return nil, false
+		}
+		res = constant.Shift(ca, x.Op, uint(n))
+	} else {
+		res = constant.BinaryOp(ca, x.Op, cb)
+	}
+	// stay within what the type can hold without wrapping
+	if v, exact := constant.Int64Val(res); !exact || v < 0 || v >= 1<<31 {
+		return nil, false
+	}
+	return &Sym{K: sConst, C: res, T: x.Type()}, true
 }
